@@ -1,1 +1,239 @@
-pub fn run(_ctx: mc_core::Ctx) -> ! { mc_core::report::machinery_failure("todo") }
+//! C22 — every mini-protocol message of both stacks encodes to exactly one
+//! well-formed CBOR item and decodes back to an equal message.
+//!
+//! GRID / exploration: `msgs::all_cases` enumerates every message variant of
+//! every protocol of pallas-network and pallas-network2 with boundary payload
+//! shapes (complete enumeration of that finite grid). Oracle per case
+//! (`msgs::roundtrip`): the encoding is accepted by the independent strict
+//! parser `mc_core::refcbor::parse_one` as exactly one item (declared lengths
+//! equal contents, no trailing byte; cross-checked with ciborium), the pallas
+//! decoder accepts it, and the decoded value re-encodes to the same bytes and
+//! has the same Debug rendering (version tables rendered sorted).
+//!
+//! A message-level failure is attributed to the innermost component codec
+//! whose stand-alone round trip fails (probes), so that one defective payload
+//! codec yields one fingerprint however many messages embed it.
+
+use crate::msgs::{self, Case, Failure};
+use mc_core::{cov, json, Ctx, Level, Value};
+use rayon::prelude::*;
+use std::collections::{BTreeMap, BTreeSet};
+
+/// Every message variant that must be present in the grid (vacuity guard).
+const EXPECTED: &[(&str, &str, &[&str])] = &[
+    ("pallas-network", "handshake-n2n", &["Propose", "Accept", "Refuse", "QueryReply"]),
+    ("pallas-network", "handshake-n2c", &["Propose", "Accept", "Refuse", "QueryReply"]),
+    ("pallas-network", "chainsync-n2n", &["RequestNext", "AwaitReply", "RollForward", "RollBackward", "FindIntersect", "IntersectFound", "IntersectNotFound", "Done"]),
+    ("pallas-network", "chainsync-n2c", &["RequestNext", "AwaitReply", "RollForward", "RollBackward", "FindIntersect", "IntersectFound", "IntersectNotFound", "Done"]),
+    ("pallas-network", "blockfetch", &["RequestRange", "ClientDone", "StartBatch", "NoBlocks", "Block", "BatchDone"]),
+    ("pallas-network", "txsubmission", &["Init", "RequestTxIds", "ReplyTxIds", "RequestTxs", "ReplyTxs", "Done"]),
+    ("pallas-network", "keepalive", &["KeepAlive", "ResponseKeepAlive", "Done"]),
+    ("pallas-network", "peersharing", &["ShareRequest", "SharePeers", "Done"]),
+    ("pallas-network", "localstate", &["Acquire", "Failure", "Acquired", "Query", "Result", "ReAcquire", "Release", "Done"]),
+    ("pallas-network", "localtxsubmission", &["SubmitTx", "AcceptTx", "RejectTx", "Done"]),
+    ("pallas-network", "localmsgsubmission", &["SubmitTx", "AcceptTx", "RejectTx", "Done"]),
+    ("pallas-network", "localmsgnotification", &["RequestMessagesNonBlocking", "ReplyMessagesNonBlocking", "RequestMessagesBlocking", "ReplyMessagesBlocking", "ClientDone"]),
+    (
+        "pallas-network",
+        "txmonitor",
+        &["Acquire", "AwaitAcquire", "Acquired", "RequestHasTx", "RequestNextTx", "RequestSizeAndCapacity", "ResponseHasTx", "ResponseNextTx", "ResponseSizeAndCapacity", "Release", "Done"],
+    ),
+    ("pallas-network2", "handshake-n2n", &["Propose", "Accept", "Refuse", "QueryReply"]),
+    ("pallas-network2", "handshake-n2c", &["Propose", "Accept", "Refuse", "QueryReply"]),
+    ("pallas-network2", "chainsync-n2n", &["RequestNext", "AwaitReply", "RollForward", "RollBackward", "FindIntersect", "IntersectFound", "IntersectNotFound", "Done"]),
+    ("pallas-network2", "chainsync-n2c", &["RequestNext", "AwaitReply", "RollForward", "RollBackward", "FindIntersect", "IntersectFound", "IntersectNotFound", "Done"]),
+    ("pallas-network2", "blockfetch", &["RequestRange", "ClientDone", "StartBatch", "NoBlocks", "Block", "BatchDone"]),
+    ("pallas-network2", "txsubmission", &["Init", "RequestTxIds", "ReplyTxIds", "RequestTxs", "ReplyTxs", "Done"]),
+    ("pallas-network2", "keepalive", &["KeepAlive", "ResponseKeepAlive", "Done"]),
+    ("pallas-network2", "peersharing", &["ShareRequest", "SharePeers", "Done"]),
+    ("pallas-network2", "leiosnotify", &["RequestNext", "BlockAnnouncement", "BlockOffer", "BlockTxsOffer", "Votes", "Done"]),
+    ("pallas-network2", "leiosfetch", &["BlockRequest", "Block", "BlockTxsRequest", "BlockTxs", "Done"]),
+];
+
+fn clip(s: &str, n: usize) -> String {
+    if s.len() <= n {
+        s.to_string()
+    } else {
+        let mut k = n;
+        while !s.is_char_boundary(k) {
+            k -= 1;
+        }
+        format!("{}… ({} chars)", &s[..k], s.len())
+    }
+}
+
+struct Res {
+    idx: usize,
+    bytes: Option<Vec<u8>>,
+    debug: String,
+    failure: Option<Failure>,
+    /// (blamed label, failure at that level, its bytes)
+    blamed: Option<(String, Failure, Option<Vec<u8>>)>,
+}
+
+fn run_case(idx: usize, c: &Case) -> Res {
+    let o = (c.run)();
+    let mut blamed = None;
+    if let Some(f) = &o.failure {
+        if f.kind == "oracle-disagreement" {
+            mc_core::report::machinery_failure(&format!("C22: reference parsers disagree on {}/{}/{}/{}: {}", c.stack, c.protocol, c.variant, c.shape, f.detail));
+        }
+        for (label, probe) in &c.probes {
+            let po = probe();
+            if let Some(pf) = po.failure {
+                if pf.kind == "oracle-disagreement" {
+                    mc_core::report::machinery_failure(&format!("C22: reference parsers disagree on component {label}: {}", pf.detail));
+                }
+                blamed = Some((label.clone(), pf, po.bytes));
+                break;
+            }
+        }
+        if blamed.is_none() {
+            blamed = Some((c.type_label.clone(), f.clone(), o.bytes.clone()));
+        }
+    }
+    Res { idx, bytes: o.bytes, debug: o.debug, failure: o.failure, blamed }
+}
+
+pub fn run(ctx: Ctx) -> ! {
+    let mut cases = msgs::all_cases(ctx.thorough);
+    // --replay: run only the case recorded in the replay file
+    if let Some(p) = &ctx.replay {
+        let v: Value = std::fs::read_to_string(p).ok().and_then(|s| serde_json::from_str(&s).ok()).unwrap_or_else(|| mc_core::report::machinery_failure("C22: unreadable replay file"));
+        let g = |k: &str| v["case"][k].as_str().unwrap_or("").to_string();
+        let (st, pr, va, sh) = (g("stack"), g("protocol"), g("variant"), g("shape"));
+        cases.retain(|c| c.stack == st && c.protocol == pr && c.variant == va && c.shape == sh);
+        if cases.is_empty() {
+            mc_core::report::machinery_failure("C22: replay case not found in the grid");
+        }
+    } else {
+        // vacuity guard: every variant of every protocol is in the grid
+        let have: BTreeSet<(String, String, String)> = cases.iter().map(|c| (c.stack.to_string(), c.protocol.to_string(), c.variant.clone())).collect();
+        for (st, pr, vs) in EXPECTED {
+            for v in *vs {
+                if !have.contains(&(st.to_string(), pr.to_string(), v.to_string())) {
+                    mc_core::report::machinery_failure(&format!("C22: no case for {st}/{pr}/{v}"));
+                }
+            }
+        }
+    }
+    let results: Vec<Res> = cases.par_iter().enumerate().map(|(i, c)| run_case(i, c)).collect();
+
+    let mut distinct: BTreeSet<Vec<u8>> = BTreeSet::new();
+    let mut per_proto: BTreeMap<String, (usize, usize, BTreeSet<String>)> = BTreeMap::new();
+    let mut samples: Vec<Value> = vec![];
+    let mut failing_samples: Vec<Value> = vec![];
+    let mut kinds: BTreeMap<String, usize> = BTreeMap::new();
+    let mut v6: BTreeMap<String, Value> = BTreeMap::new();
+    let mut passed = 0usize;
+    for r in &results {
+        let c = &cases[r.idx];
+        let e = per_proto.entry(format!("{}/{}", c.stack, c.protocol)).or_default();
+        e.0 += 1;
+        e.2.insert(c.variant.clone());
+        if let Some(b) = &r.bytes {
+            distinct.insert(b.clone());
+        }
+        if c.protocol == "peersharing" && c.shape == "one[v6:2001:db8::1:3001]" {
+            // the SharePeers message and the address item inside it
+            if let Some(b) = &r.bytes {
+                let inner = &b[3..b.len() - 1];
+                let items = {
+                    // count the items that follow the array head of the address
+                    let mut pos = 1;
+                    let mut n = 0;
+                    while pos < inner.len() {
+                        match mc_core::refcbor::parse_at(inner, pos) {
+                            Ok(node) => {
+                                pos = node.end;
+                                n += 1;
+                            }
+                            Err(_) => break,
+                        }
+                    }
+                    n
+                };
+                v6.insert(
+                    c.stack.to_string(),
+                    json!({"message": hex::encode(b), "peer_address": hex::encode(inner), "array_head_declares": inner[0] & 0x1f, "items_present": items,
+                           "strict_parse": format!("{:?}", mc_core::refcbor::parse_one(inner).map(|_| "ok"))}),
+                );
+            }
+        }
+        match (&r.failure, &r.blamed) {
+            (None, _) => {
+                passed += 1;
+                e.1 += 1;
+                if samples.len() < 8 && r.idx % 97 == 5 {
+                    samples.push(json!({"stack": c.stack, "protocol": c.protocol, "variant": c.variant, "shape": c.shape, "bytes": clip(&hex::encode(r.bytes.as_ref().unwrap()), 160), "verdict": "ok"}));
+                }
+            }
+            (Some(f), Some((label, bf, bbytes))) => {
+                *kinds.entry(bf.kind.to_string()).or_default() += 1;
+                let fp = match &bf.panic_site {
+                    Some(site) => format!("{site}|{}:{label}", c.stack),
+                    None => format!("{}:{}:{label}", bf.kind, c.stack),
+                };
+                let what = format!(
+                    "{} {}::{}/{}: {} ({}); attributed to {label}: {} — {}",
+                    c.stack,
+                    c.protocol,
+                    c.variant,
+                    c.shape,
+                    f.kind,
+                    clip(&f.detail, 200),
+                    bf.kind,
+                    clip(&bf.detail, 300)
+                );
+                let case = json!({
+                    "stack": c.stack, "protocol": c.protocol, "variant": c.variant, "shape": c.shape,
+                    "message": clip(&r.debug, 800),
+                    "message_bytes": r.bytes.as_ref().map(|b| clip(&hex::encode(b), 800)),
+                    "message_failure": {"kind": f.kind, "detail": clip(&f.detail, 800)},
+                    "blamed_component": label,
+                    "component_bytes": bbytes.as_ref().map(|b| clip(&hex::encode(b), 800)),
+                    "component_failure": {"kind": bf.kind, "detail": clip(&bf.detail, 800)},
+                });
+                if failing_samples.len() < 6 {
+                    failing_samples.push(json!({"stack": c.stack, "protocol": c.protocol, "variant": c.variant, "shape": c.shape, "fingerprint": fp, "bytes": r.bytes.as_ref().map(|b| clip(&hex::encode(b), 160))}));
+                }
+                ctx.violation(fp, what, case);
+            }
+            (Some(_), None) => unreachable!(),
+        }
+    }
+    if ctx.replay.is_none() {
+        if passed < 500 || distinct.len() < 500 {
+            mc_core::report::machinery_failure(&format!("C22: only {passed} passing cases / {} distinct encodings — grid not exercised", distinct.len()));
+        }
+        if v6.len() != 2 {
+            mc_core::report::machinery_failure("C22: IPv6 peer address case missing");
+        }
+    }
+    samples.extend(failing_samples);
+    let pp: BTreeMap<String, Value> = per_proto.into_iter().map(|(k, (n, ok, vs))| (k, json!({"cases": n, "passed": ok, "variants": vs}))).collect();
+    let cov = cov! {
+        "evaluations" => results.len(),
+        "distinct_nontrivial" => distinct.len(),
+        "rule" => "evaluation = one message value (variant x payload shape of the grid in msgs/*.rs) put through encode -> strict single-item parse (refcbor, cross-checked with ciborium) -> decode -> re-encode/Debug comparison; non-trivial = distinct encodings produced by the pallas encoder on which the strict parser was evaluated",
+        "samples" => samples,
+        "exhaustive" => true,
+        "cases_passed" => passed,
+        "cases_failed" => results.len() - passed,
+        "failure_kinds_at_blamed_component" => kinds,
+        "per_protocol" => pp,
+        "peer_address_v6" => v6,
+        "tier_note" => "quick and thorough enumerate the same grid",
+    };
+    ctx.finish(
+        Level::Exploration,
+        cov,
+        &[
+            "payload values are boundary shapes (0/1/3 entries, integer head-width edges, origin/specific points, IPv4/IPv6), not all values",
+            "only representable field combinations: n2n VersionData with peer_sharing and query both present or both absent; HeaderContent byron_prefix present iff variant 0",
+            "equality of decoded and original message judged by Debug rendering (hash-map version tables rendered sorted) and identical re-encoding, since most Message types do not implement PartialEq",
+            "local-state query/result payloads are AnyCbor at message level; typed v16 Request values and a few typed results are additionally decoded back from the decoded message",
+            "local-tx-submission rejections: every variant of every failure enum with simple payloads; large payload types (certificates, gov actions, outputs, purposes) one value per variant",
+        ],
+    )
+}
